@@ -7,6 +7,7 @@ from .. import gen as G
 from .. import scen as S
 from ..oracles import ortho_bound
 from ..world import World, sha
+from .c06 import atol_estimate as _atol_est
 
 PROPERTY = "C07"
 LEVEL = "fault_enumeration"
@@ -523,6 +524,8 @@ class C07Monitor:
         self.mx("null_F_rel_over_bound", rel / bound)
         if not rel <= bound:
             self.v("null_forcing", i, mrec.idx, {"what": "F does not follow dF/dt = L F",
+                                                 "solver_steps": r["steps"],
+                                                 "atol_estimate_over_bound": _atol_est(r["F_in"], Fref) / bound,
                                                  "rel": rel, "bound": bound})
 
 
